@@ -102,6 +102,13 @@ func jobsFor(prop, tier string) []Job {
 		}
 		js = append(js, mk("crash-w1-2crashes", params("W", 1, "MEMTHR", 60), 2, false, false, 0),
 			mk("crash-w3-straddle", params("W", 3, "MEMTHR", 44), 1, tears, false, 0))
+		if prop == "C03" {
+			// restart with more than ten tables in a level, then further flushes and a compaction
+			j := mk("crash-manyfiles-restart", params("N", 12, "L0T", 12, "C03", 1), 0, false, false, 0)
+			j.Fn, j.Fn2 = "VH_C02_ManyFiles", ""
+			j.Bounds = map[string]any{"tables_in_L0": 12, "then": "clean restart, 2 more flushes, compaction of 14 tables, restart"}
+			js = append(js, j)
+		}
 		if !tears { // (a 64 KiB unsynced tail would be cut at 64 Ki lengths)
 			js = append(js, mk("crash-w6-large-value", params("W", 6, "MEMTHR", 100000, "POSTN", 0), 1, false, false, 0))
 		}
@@ -391,6 +398,14 @@ func jobsFor(prop, tier string) []Job {
 				j := mk("c16-recovered-filters", params("T", 2))
 				j.Pkg, j.Fn, j.SymIndex, j.OnlyAsserts = "", "VH_C16_Recover", false, []string{"C16."}
 				j.Bounds = map[string]any{"tables": 2, "keys": "concrete (apple, apple@x, b@d, c): the real filter and murmur3 run", "tombstones_values_versions": "symbolic", "handles": "rebuilt from the files by recover()"}
+				return j
+			}(),
+			func() Job {
+				// lookups from two goroutines on the same recovered filters (shared stateful hashers)
+				j := mk("c16-concurrent-lookups-dev1", params())
+				j.Pkg, j.Fn, j.SymIndex, j.OnlyAsserts = "", "VH_CONC5", false, []string{"C16."}
+				j.Sched, j.MaxDev, j.Races, j.Replay = true, 1, true, "gated"
+				j.Bounds = map[string]any{"goroutines": "two readers + harness + engine background", "keys": "concrete, all in sstables", "preemption_bound": 1}
 				return j
 			}(),
 			mk("c16-n2-nonmember", params("N", 2, "KL", 2, "STEP", 3, "NONMEMBER", 1)),
